@@ -24,6 +24,7 @@ fn num(v: &Value) -> f64 {
     match v["k"].as_str().unwrap() {
         "pinf" => f64::INFINITY,
         "ninf" => f64::NEG_INFINITY,
+        "pmax" => f64::MAX,
         _ => {
             let x = v["v"].as_i64().unwrap() as f64;
             if x == 0. && v["nz"].as_bool().unwrap() { -0.0 } else { x * unit() }
@@ -34,6 +35,8 @@ fn num(v: &Value) -> f64 {
 fn enc(x: f64) -> Value {
     if x == f64::INFINITY {
         json!({"v": 0, "nz": false, "k": "pinf"})
+    } else if x == f64::MAX {
+        json!({"v": 0, "nz": false, "k": "pmax"})
     } else if x == f64::NEG_INFINITY {
         json!({"v": 0, "nz": false, "k": "ninf"})
     } else if x.is_nan() || (x / unit()).fract() != 0. {
